@@ -183,6 +183,16 @@ theorem resize_nearest_contract (src : List (List Nat)) (w H W : Nat) (hh : 0 < 
   ⟨(resizeNearest_shape src H W).1, (resizeNearest_shape src H W).2, resizeNearest_subset src w H W hh hw hrect,
     fun n N _ _ h => nearIdx_mono n N h, fun _ _ h => nearIdx_id h, by simp [labelsFor]⟩
 
+/-- **the label map in force never depends on the call history**: after any sequence of calls with signals of
+positive shapes on one `HeterogeneousLinearModel`, the map used for a signal of shape `H × W` is
+`labelsFor labels H W` — the original labels if the shapes agree, else the nearest-neighbour resize of the
+ORIGINAL labels (never of a previously resized copy). -/
+theorem label_cache_history_free (labels : List (List Nat)) (w : Nat) (hrect : ∀ row ∈ labels, row.length = w)
+    (hw : (listGetD labels 0 []).length = w) (shapes : List (Nat × Nat)) (H W : Nat)
+    (hpos : ∀ s ∈ shapes, 0 < s.1) (hH : 0 < H) :
+    cacheRun labels (shapes ++ [(H, W)]) = labelsFor labels H W :=
+  cacheRun_last labels w hrect hw shapes H W hpos hH
+
 /-- the index map OpenCV uses is the model's, along rows and along columns, for all tabulated sizes -/
 theorem resize_matches_code : ∀ e ∈ Gen.nearTable,
     e.2.2.1 = (List.range e.2.1).map (nearIdx e.1 e.2.1) ∧ e.2.2.2 = (List.range e.2.1).map (nearIdx e.1 e.2.1) := by
@@ -244,6 +254,10 @@ theorem poly_matches_code : ∀ d ∈ Gen.polyDegrees,
     Gen.polyTable d = (polyExps d).map some ∧ Gen.polySizeTable d = some (polySize d) := by decide
 
 /-! ### non-vacuity -/
+
+/-- coarse call, then native resolution: the original stripes are back -/
+example : cacheRun [[1, 2, 1, 2], [1, 2, 1, 2]] [(1, 2), (2, 4)] = [[1, 2, 1, 2], [1, 2, 1, 2]] ∧
+    cacheRun [[1, 2, 1, 2], [1, 2, 1, 2]] [(1, 2)] = [[1, 1]] := by decide
 
 open Darsia.Kern in
 /-- a sequence with unsorted supports, a duplicate row, a kernel change and a value-only update: the weights
